@@ -4,9 +4,6 @@
 //
 //   <nthreads> <nids> / body ; body ; ... / prog ; prog ; ... / <schedule digits>
 //   cmd tokens: P:<tgt>:<n|i>:<id|->:<body>  C:<id>  W:<id>  X:<id>  D:<0|1>
-//
-// Mode "free" (argv[1] == "free"): no controller; the same client programs run free on real threads
-// with random sleeps; prints only the event list (used by the thorough tier's stress pass).
 #include "config.h"
 #include "common/util.h"
 #include "common/sched.h"
